@@ -51,8 +51,8 @@ Hmac = S.Hmac
 # recursively defined specification functions
 #   phA(k, seed, i)   = A(i) of RFC 5246 section 5:  A(0) = seed, A(i) = HMAC(k, A(i-1))
 #   hkT(k, info, i)   = T(i) of RFC 5869 section 2.3: T(0) = empty, T(i) = HMAC(k, T(i-1) | info | i)
-phA = S.uf('phA', [Val, Seq, smt.I], Seq)
-hkT = S.uf('hkT', [Val, Seq, smt.I], Seq)
+phA = S.uf('phA', [Val, Seq, smt.I], Seq, seq_ext=[1])
+hkT = S.uf('hkT', [Val, Seq, smt.I], Seq, seq_ext=[1])
 
 ALGS = {'md5': (16, 64), 'sha1': (20, 64), 'sha224': (28, 64), 'sha256': (32, 64), 'sha384': (48, 128),
         'sha512': (64, 128)}
@@ -192,15 +192,23 @@ def _append(fed, d):
 REG.models['Hash'] = HashModel()
 
 
+def _sizes(alg):
+    """(digest_size, block_size) of a hash: literal for the known names, HashLen/BlockLen terms otherwise"""
+    if isinstance(alg, VStr) and alg.s in ALGS:
+        return VInt(ALGS[alg.s][0]), VInt(ALGS[alg.s][1])
+    return hlen(alg), blen(alg)
+
+
 def make_hash(st, alg, fed=None, fresh=True):
     o = st.alloc('Hash')
     if not fresh:
         st.fresh_objs.discard(o.oid)
     st.heap[(o.oid, 'alg')] = alg
     st.heap[(o.oid, 'fed')] = fed if fed is not None else VSeq(smt.s_empty, 'byte', 'bytes')
-    st.heap[(o.oid, 'digest_size')] = hlen(alg)
-    st.heap[(o.oid, 'block_size')] = blen(alg)
-    st.assume(z3.And(HashLen(algv(alg)) >= 1, BlockLen(algv(alg)) >= 1))
+    ds, bs = _sizes(alg)
+    st.heap[(o.oid, 'digest_size')] = ds
+    st.heap[(o.oid, 'block_size')] = bs
+    st.assume(z3.And(HashLen(algv(alg)) == ds.t, BlockLen(algv(alg)) == bs.t, ds.t >= 1, bs.t >= 1))
     return o
 
 
@@ -295,9 +303,10 @@ def _hmac_new(ex, args, kw, st, fr, node):
     elif not isinstance(msg, VNone):
         raise Unsupported('hmac msg %r' % (msg,))
     st.heap[(o.oid, 'fed')] = fed
-    st.heap[(o.oid, 'digest_size')] = hlen(alg)
-    st.heap[(o.oid, 'block_size')] = blen(alg)
-    st.assume(z3.And(HashLen(algv(alg)) >= 1, BlockLen(algv(alg)) >= 1))
+    ds, bs = _sizes(alg)
+    st.heap[(o.oid, 'digest_size')] = ds
+    st.heap[(o.oid, 'block_size')] = bs
+    st.assume(z3.And(HashLen(algv(alg)) == ds.t, BlockLen(algv(alg)) == bs.t, ds.t >= 1, bs.t >= 1))
     return [Outcome('normal', st, o)]
 
 
@@ -341,7 +350,7 @@ REG.note(PROP, 'trusted', 'definitional axioms of the recursive specification fu
 contract(C + 'secureHash',
          params={'data': T.bytes(), 'algorithm': T.opaque()},
          result=T.bytes(),
-         ensures=lambda ns: S.And(S.seq_eq(ns.result, H(ns.algorithm, ns.data)),
+         ensures=lambda ns: S.And(ns.result == H(ns.algorithm, ns.data),
                                   S.len_(ns.result) == hlen(ns.algorithm), S.is_bytes(ns.result)),
          raises={}, prop=PROP,
          doc='secureHash(data, alg) == Hash_alg(data), for every algorithm name and input')
@@ -351,7 +360,7 @@ HMAC_ALGS = ('md5', 'sha1', 'sha256', 'sha384')     # the algorithms the library
 contract(C + 'secureHMAC',
          variants={a: {'k': T.bytes(), 'b': T.bytes(), 'algorithm': T.const(a)} for a in ALGS},
          result=T.bytes(),
-         ensures=lambda ns: S.And(S.seq_eq(ns.result, HM(ns.algorithm, ns.k, ns.b)),
+         ensures=lambda ns: S.And(ns.result == HM(ns.algorithm, ns.k, ns.b),
                                   S.len_(ns.result) == hlen(ns.algorithm), S.is_bytes(ns.result)),
          raises={}, prop=PROP,
          doc='secureHMAC(k, b, alg) == HMAC-alg(k, b) for every key and message')
@@ -397,3 +406,229 @@ contract(M + 'P_hash',
          prop=PROP,
          doc='P_hash(alg, secret, seed, n) == first n bytes of HMAC(secret, A(1)+seed) + HMAC(secret, A(2)+seed) + ... '
              'for every n >= 0, every secret/seed and every hash (any digest size >= 1)')
+
+
+# ---------------------------------------------------------------------------
+# PRF (TLS 1.0/1.1, RFC 2246 section 5):  PRF(secret, label, seed) = P_MD5(S1, label + seed) XOR P_SHA-1(S2, label + seed)
+# S1 / S2 = first / last ceil(len(secret) / 2) bytes of the secret (they share a byte when the length is odd).
+from pyvc import floats as _floats   # noqa: E402  (registers math.ceil / math.floor / ord models)
+
+
+def prf10_byte(secret, label, seed, p):
+    n = S.len_(secret)
+    half = (n + 1) / 2
+    s1 = secret[0:half]
+    s2 = secret[n - half:n]
+    ls = S.cat(label, seed)
+    return phash_byte('md5', s1, ls, p, 16) ^ phash_byte('sha1', s2, ls, p, 20)
+
+
+def is_prf10(out, secret, label, seed, length):
+    return S.And(S.len_(out) == length, S.is_bytes(out),
+                 S.forall(lambda p: out[p] == prf10_byte(secret, label, seed, p), 0, length))
+
+
+def inv_prf_xor(ns):
+    o = ns.old.p_md5
+    return S.And(S.len_(ns.p_md5) == ns.length, S.len_(ns.p_sha1) == ns.length,
+                 S.forall(lambda k: ns.p_md5[k] == (o[k] ^ ns.p_sha1[k]), 0, ns.idx),
+                 S.forall(lambda k: ns.p_md5[k] == o[k], ns.idx, ns.length))
+
+
+contract(M + 'PRF',
+         params={'secret': T.bytes(), 'label': T.bytes(), 'seed': T.bytes(), 'length': T.int()},
+         requires=lambda ns: ns.length >= 0,
+         result=T.bytes(),
+         ensures=lambda ns: is_prf10(ns.result, ns.secret, ns.label, ns.seed, ns.length),
+         raises={},
+         loops={1: LoopSpec(inv_prf_xor, fingerprint='range(length)')},
+         prop=PROP,
+         doc='PRF == P_MD5(first half) xor P_SHA1(second half) over label+seed, halves of ceil(n/2) bytes, every n and length')
+
+contract(M + 'PRF_1_2',
+         params={'secret': T.bytes(), 'label': T.bytes(), 'seed': T.bytes(), 'length': T.int()},
+         requires=lambda ns: ns.length >= 0, result=T.bytes(),
+         ensures=lambda ns: is_phash(ns.result, 'sha256', ns.secret, S.cat(ns.label, ns.seed), ns.length),
+         raises={}, prop=PROP, doc='TLS 1.2 PRF == P_SHA256(secret, label + seed)  (RFC 5246 section 5)')
+
+contract(M + 'PRF_1_2_SHA384',
+         params={'secret': T.bytes(), 'label': T.bytes(), 'seed': T.bytes(), 'length': T.int()},
+         requires=lambda ns: ns.length >= 0, result=T.bytes(),
+         ensures=lambda ns: is_phash(ns.result, 'sha384', ns.secret, S.cat(ns.label, ns.seed), ns.length),
+         raises={}, prop=PROP, doc='TLS 1.2 PRF of the SHA-384 suites == P_SHA384(secret, label + seed)')
+
+
+# ---------------------------------------------------------------------------
+# PRF_SSL (SSLv3 key derivation, RFC 6101 section 6.1 / 6.2.2):
+#   block j (j = 0..25) = MD5(secret + SHA('A'+j repeated j+1 times + secret + seed)),  output = block 0 + block 1 + ...
+
+def prfssl_byte(secret, seed, p):
+    p = _lift(p)
+    j = p / 16
+    salt = S.rep(65 + j, j + 1)                       # 'A', 'BB', 'CCC', ...
+    blk = H('md5', S.cat(secret, H('sha1', S.cat(salt, secret, seed))))
+    return blk[p % 16]
+
+
+def is_prfssl(out, secret, seed, length):
+    return S.And(S.len_(out) == length, S.is_bytes(out),
+                 S.forall(lambda p: out[p] == prfssl_byte(secret, seed, p), 0, length))
+
+
+def inv_prfssl_outer(ns):
+    b = ns.local('bytes')
+    return S.And(ns.index == 16 * ns.idx, ns.index <= ns.length, S.len_(b) == ns.length,
+                 S.forall(lambda p: b[p] == prfssl_byte(ns.secret, ns.seed, p), 0, ns.index))
+
+
+def inv_prfssl_inner(ns):
+    b = ns.local('bytes')
+    return S.And(ns.index == 16 * ns.x + ns.idx, ns.index <= ns.length, S.len_(b) == ns.length,
+                 S.forall(lambda p: b[p] == prfssl_byte(ns.secret, ns.seed, p), 0, ns.index))
+
+
+contract(M + 'PRF_SSL',
+         params={'secret': T.bytes(), 'seed': T.bytes(), 'length': T.int()},
+         requires=lambda ns: (ns.length >= 0) & (ns.length <= 416),
+         result=T.bytes(),
+         ensures=lambda ns: is_prfssl(ns.result, ns.secret, ns.seed, ns.length),
+         raises={},
+         loops={1: LoopSpec(inv_prfssl_outer, fingerprint='range(26)'),
+                2: LoopSpec(inv_prfssl_inner, fingerprint='output')},
+         prop=PROP,
+         doc='PRF_SSL == first n bytes of MD5(secret+SHA1("A"+secret+seed)) + MD5(secret+SHA1("BB"+secret+seed)) + ... '
+             'for every n <= 416 = 26*16 (the construction defines 26 blocks)')
+REG.note(PROP, 'assumptions', 'PRF_SSL: requires 0 <= length <= 416 (26 blocks of 16 bytes exist in the RFC 6101 construction; for larger '
+         'lengths the real function silently returns zero bytes after byte 416 -- no caller asks for more than 2*(20+32+16) = 136)')
+
+
+# ---------------------------------------------------------------------------
+# HKDF-Expand (RFC 5869 section 2.3):  N = ceil(L / HashLen), T(0) = empty, T(i) = HMAC(PRK, T(i-1) | info | i),
+# OKM = first L octets of T(1) | T(2) | ... | T(N);  defined for L <= 255 * HashLen.
+
+HKDF_ALGS = ('sha256', 'sha384')         # what _getPRFParams hands to the TLS 1.3 key schedule
+
+
+def hkdf_byte(alg, prk, info, p, ds=None):
+    k = HmacKey(algv(alg), prk.t)
+    ds = hlen(alg) if ds is None else _lift(ds)
+    p = _lift(p)
+    return VInt(sat(hkT(k, info.t, (p / ds).t + 1), (p % ds).t))
+
+
+def is_hkdf(out, alg, prk, info, L, ds=None):
+    return S.And(S.len_(out) == L, S.is_bytes(out),
+                 S.forall(lambda p: out[p] == hkdf_byte(alg, prk, info, p, ds), 0, L))
+
+
+def inv_hkdf(ns):
+    alg = ns.algorithm
+    ds = ALGS[alg.s][0]
+    k = HmacKey(algv(alg), ns.PRK.t)
+    x = ns.idx
+    return S.And(VBool(ns.Titer.t == hkT(k, ns.info.t, (x - 1).t)),
+                 S.len_(ns.Titer) == S.ite(x == 1, 0, ds),
+                 S.len_(ns.T) == ds * S.max_(x - 2, 0),
+                 S.forall(lambda p: ns.T[p] == hkdf_byte(alg, ns.PRK, ns.info, p, ds), 0, S.len_(ns.T)))
+
+
+def _hkdf_params(a):
+    return {'PRK': T.bytes(), 'info': T.bytes(), 'L': T.int(), 'algorithm': T.const(a)}
+
+
+def _hkdf_ensures(ns):
+    return is_hkdf(ns.result, ns.algorithm, ns.PRK, ns.info, ns.L, ALGS[ns.algorithm.s][0])
+
+
+# (a) the RFC domain.  EXPECTED to leave one obligation open on the pinned tree: for 254*HashLen < L <= 255*HashLen the
+#     loop runs to x == 256 and bytearray([256]) raises ValueError (finding F2, class 'hkdf-expand-max-length').
+contract(C + 'HKDF_expand', name='HKDF_expand@rfc5869-domain',
+         variants={a: _hkdf_params(a) for a in HKDF_ALGS},
+         requires=lambda ns: (ns.L >= 0) & (ns.L <= 255 * ALGS[ns.algorithm.s][0]),
+         result=T.bytes(), ensures=_hkdf_ensures, raises={},
+         loops={1: LoopSpec(inv_hkdf, fingerprint='range(1, N+2)')},
+         prop=PROP,
+         doc='HKDF_expand == HKDF-Expand of RFC 5869 for every PRK, info and every 0 <= L <= 255*HashLen, raising nothing')
+
+# (b) the part of the domain on which the pinned code is correct (everything TLS 1.3 asks for: L <= HashLen)
+contract(C + 'HKDF_expand', name='HKDF_expand@L<=254*HashLen',
+         variants={a: _hkdf_params(a) for a in HKDF_ALGS},
+         requires=lambda ns: (ns.L >= 0) & (ns.L <= 254 * ALGS[ns.algorithm.s][0]),
+         result=T.bytes(), ensures=_hkdf_ensures, raises={},
+         loops={1: LoopSpec(inv_hkdf, fingerprint='range(1, N+2)')},
+         prop=PROP,
+         doc='HKDF_expand == HKDF-Expand of RFC 5869 for every PRK, info and every 0 <= L <= 254*HashLen')
+
+
+# ---------------------------------------------------------------------------
+# HKDF-Expand-Label / Derive-Secret (RFC 8446 section 7.1)
+#   struct { uint16 length; opaque label<7..255> = "tls13 " + Label; opaque context<0..255> = Context; } HkdfLabel;
+#   HKDF-Expand-Label(Secret, Label, Context, Length) = HKDF-Expand(Secret, HkdfLabel, Length)
+#   Derive-Secret(Secret, Label, Messages) = HKDF-Expand-Label(Secret, Label, Transcript-Hash(Messages), Hash.length)
+
+def hkdf_label(length, label, context):
+    return S.cat(S.be(length, 2), S.byte(6 + S.len_(label)), bytes_(b'tls13 '), label,
+                 S.byte(S.len_(context)), context)
+
+
+def _label_too_long(ns):
+    return (S.len_(ns.label) + 6 > 255)
+
+
+contract(C + 'HKDF_expand_label',
+         variants={a: {'secret': T.bytes(), 'label': T.bytes(), 'hashValue': T.bytes(), 'length': T.int(),
+                       'algorithm': T.const(a)} for a in HKDF_ALGS},
+         requires=lambda ns: (ns.length >= 0) & (ns.length <= 254 * ALGS[ns.algorithm.s][0]),
+         result=T.bytes(),
+         ensures=lambda ns: is_hkdf(ns.result, ns.algorithm, ns.secret, hkdf_label(ns.length, ns.label, ns.hashValue),
+                                    ns.length, ALGS[ns.algorithm.s][0]),
+         raises={ValueError: ('iff', lambda ns: _label_too_long(ns) | (S.len_(ns.hashValue) > 255))},
+         loops={('HKDF_expand', 1): LoopSpec(inv_hkdf, fingerprint='range(1, N+2)')},
+         opts={'skolemize': True},
+         prop=PROP,
+         doc='HKDF_expand_label == HKDF-Expand(secret, HkdfLabel(length, "tls13 "+label, context), length); ValueError exactly '
+             'when label or context do not fit their one-byte length prefix')
+
+
+def hh_obj(**extra):
+    f = {'_handshakeMD5': T.hash('md5'), '_handshakeSHA': T.hash('sha1'), '_handshakeSHA224': T.hash('sha224'),
+         '_handshakeSHA256': T.hash('sha256'), '_handshakeSHA384': T.hash('sha384'), '_handshakeSHA512': T.hash('sha512'),
+         '_handshake_buffer': T.bytes()}
+    f.update(extra)
+    return T.obj(HH.HandshakeHashes, **f)
+
+
+_HH_FIELD = {'md5': '_handshakeMD5', 'sha1': '_handshakeSHA', 'sha224': '_handshakeSHA224', 'sha256': '_handshakeSHA256',
+             'sha384': '_handshakeSHA384', 'sha512': '_handshakeSHA512'}
+
+
+def transcript_hash(ns, hh, alg):
+    """Hash_alg(everything fed to the transcript object so far)"""
+    return H(alg, ns.f(ns.f(hh, _HH_FIELD[alg]), 'fed'))
+
+
+def _ds_ensures(ns):
+    alg = ns.algorithm.s
+    ds = ALGS[alg][0]
+    if isinstance(ns.handshake_hashes, VNone):
+        th = H(alg, S.empty())
+    else:
+        th = transcript_hash(ns, ns.handshake_hashes, alg)
+    return is_hkdf(ns.result, alg, ns.secret, hkdf_label(ds, ns.label, th), ds, ds)
+
+
+_ds_variants = {}
+for _a in HKDF_ALGS:
+    _ds_variants[_a + ',transcript'] = {'secret': T.bytes(), 'label': T.bytes(), 'handshake_hashes': hh_obj(),
+                                        'algorithm': T.const(_a)}
+    _ds_variants[_a + ',no-transcript'] = {'secret': T.bytes(), 'label': T.bytes(), 'handshake_hashes': T.none(),
+                                           'algorithm': T.const(_a)}
+
+contract(C + 'derive_secret', variants=_ds_variants,
+         result=T.bytes(), ensures=_ds_ensures,
+         raises={ValueError: ('iff', _label_too_long)},
+         loops={('HKDF_expand', 1): LoopSpec(inv_hkdf, fingerprint='range(1, N+2)')},
+         opts={'skolemize': True},
+         prop=PROP,
+         doc='derive_secret == HKDF-Expand-Label(secret, label, Transcript-Hash (of the empty string when no transcript is given), '
+             'Hash.length)')
